@@ -379,7 +379,7 @@ theorem i256DivModFloor_spec (prof : Profile) (x1 x2 y : Int)
 
 /-- `i128_shifted_div_mod_floor(x, p, y)` for `y > 0`, `p ≤ 38` -/
 theorem i128ShiftedDivModFloor_spec (prof : Profile) (x : Int) (p : Nat) (y : Int)
-    (h1 : I128_MIN < x ∧ x ≤ I128_MAX) (hp : p ≤ 38) (hy : 0 < y ∧ y ≤ I128_MAX) :
+    (h1 : I128_MIN ≤ x ∧ x ≤ I128_MAX) (hp : p ≤ 38) (hy : 0 < y ∧ y ≤ I128_MAX) :
     i128ShiftedDivModFloor prof x p y =
       .ok (if ((x * 10 ^ p).natAbs / y.natAbs : Nat) ≤ I128_MAX.toNat then some ((x * 10 ^ p) / y, (x * 10 ^ p) % y) else none) := by
   unfold I128_MIN I128_MAX at h1
@@ -417,7 +417,7 @@ theorem i128ShiftedDivModFloor_spec (prof : Profile) (x : Int) (p : Nat) (y : In
 /-- `i128_shifted_div_mod_floor(x, p, y)` for `y < 0` (the branch the D13 repair made live): the floor quotient of
     `x·10^p / y = (-(x·10^p)) / (-y)` and a remainder with the sign of `y` -/
 theorem i128ShiftedDivModFloor_spec_neg (prof : Profile) (x : Int) (p : Nat) (y : Int)
-    (h1 : I128_MIN < x ∧ x ≤ I128_MAX) (hp : p ≤ 38) (hy : I128_MIN ≤ y ∧ y < 0) :
+    (h1 : I128_MIN ≤ x ∧ x ≤ I128_MAX) (hp : p ≤ 38) (hy : I128_MIN ≤ y ∧ y < 0) :
     i128ShiftedDivModFloor prof x p y =
       .ok (if ((x * 10 ^ p).natAbs / y.natAbs : Nat) ≤ I128_MAX.toNat
         then some ((-(x * 10 ^ p)) / (-y), -((-(x * 10 ^ p)) % (-y))) else none) := by
